@@ -482,6 +482,7 @@ fn run(tier: Tier, seed: u64) -> i32 {
         coverage: json!({
             "evaluations": evaluations,
             "distinct_nontrivial": distinct.len(),
+            "run_digest": format!("{:016x}", distinct.iter().fold(0u64, |a, h| a ^ vcore::mix(*h))),
             "rule": "evaluation = one complete lelwel run (front end, analysis, rendered diagnostics in both display styles, generated.rs / parser.rs / lexer.rs, dump of every analysis set keyed by rule name + regex-tree path) on one grammar in one configuration: (a) under a Miri seed, which decides every RandomState and allocation address reproducibly; (b) in a fresh native process with its own cwd, environment size, HOME/LANG/TERM/NO_COLOR (entropy not controlled); (c) twice in one thread and in a fresh thread; (d) on a seeded permutation of the top-level declarations (accepted grammars; reversal, rotation, shuffles). Outputs of (a)-(c) must be byte-identical per grammar; (d) must give the same diagnostics as a multiset of (code, message, declaration, offset), identical analysis sets and identical generated code modulo the order of rule functions / trait method declarations. Distinct = different (grammar, configuration).",
             "samples": samples,
             "counts": counts,
